@@ -131,6 +131,12 @@ func runC14(s *kernel.Sim, prod bool) {
 	}
 	if s.Choose("handlerpark", 3) != 0 {
 		s.SetYield("handler", 3)
+		if !prod && s.Choose("bursts", 2) == 1 {
+			// messages queued behind one another may arrive together: the reading loop finds the next one
+			// without a scheduling decision in between (handlers park on entry, so their order stays decided here)
+			ca.SetBurst(3)
+			cb.SetBurst(3)
+		}
 	}
 	s.SetYield("op", 4)
 	if s.Choose("atomicyield", 2) == 1 {
